@@ -33,7 +33,18 @@ Unary(S) ==
 L1 == OpsOver(Leaves, Leaves) \cup Unary(Leaves)
 L1small == OpsOver({F("a"), N("-1")}, {F("b"), N("-1")}) \cup Unary({F("a"), N("-1")})
 
-Trees ==
+\* an operand whose own text BEGINS and ENDS with a bracketed group:  x / ((a+b) * (c+d)),  x - ((a+b)*c - (d+e)),  and the boolean analogue
+B2(o, x, y) == [k |-> "bin", op |-> o, l |-> x, r |-> y]
+Groups == {B2("+", F("a"), F("b")), B2("-", F("c"), N("1"))}
+BGroups == {B2("OR", B2("=", F("a"), N("1")), B2("=", F("b"), N("2"))), B2("AND", B2("<", F("a"), N("1")), B2("=", F("c"), N("2")))}
+Sandwich ==
+       { B2(o, F("x"), B2(o2, p, q)) : o \in {"/", "-", "*"}, o2 \in {"*", "/", "-", "+"}, p \in Groups, q \in Groups }
+  \cup { B2(o, B2(o2, p, q), F("x")) : o \in {"/", "-", "*"}, o2 \in {"*", "/", "-", "+"}, p \in Groups, q \in Groups }
+  \cup { B2("-", F("x"), B2("-", B2("*", p, F("c")), q)) : p \in Groups, q \in Groups }
+  \cup { B2(o, B2("=", F("x"), N("0")), B2(o2, p, q)) : o \in BoolOps, o2 \in BoolOps, p \in BGroups, q \in BGroups }
+  \cup { [k |-> "not", a |-> B2(o2, p, q)] : o2 \in BoolOps, p \in BGroups, q \in BGroups }
+
+Trees == Sandwich \cup
     IF Mode = "edge" THEN
         RichLeaves \cup L1 \cup OpsOver(L1, {F("c"), N("-1")}) \cup OpsOver({F("c"), N("-1")}, L1) \cup Unary(L1)
     ELSE
